@@ -145,6 +145,14 @@ def _ops():
         # without any clause the value form is not evaluated and the result is empty (asserted by the repository's
         # own tests/native_tests/comprehensions.hy), so its children are not in evaluated position
         N(f"{h}/0", lambda e, h=h: E(S(h), e), [B], C, evaluated=())
+    for h in ("lfor", "sfor", "gfor"):
+        N(f"{h}/leading-if", lambda c, xs, e, h=h: E(S(h), K("if"), c, U("x"), xs, e), [B, B, B], C)
+        N(f"{h}/leading-setv", lambda v, xs, e, h=h: E(S(h), K("setv"), U("y"), v, U("x"), xs, e), [B, B, B], C)
+        N(f"{h}/leading-do", lambda d, xs, e, h=h: E(S(h), K("do"), d, U("x"), xs, e), [B, P, P], C)
+        N(f"{h}/only-if", lambda c, e, h=h: E(S(h), K("if"), c, e), [B, B], C)
+        N(f"{h}/if-if", lambda xs, c, d, e, h=h: E(S(h), U("x"), xs, K("if"), c, K("if"), d, e), [P, B, B, P], C)
+    N("dfor/leading-if", lambda c, xs, k, v: E(S("dfor"), K("if"), c, U("x"), xs, k, v), [B, P, P, P], C)
+    N("for/leading-if", lambda c, xs, b: E(S("for"), List([K("if"), c, U("x"), xs]), b), [B, P, B], C)
     N("lfor/2", lambda xs, ys, e: E(S("lfor"), U("x"), xs, U("y"), ys, e), [B, B, B], C)
     N("lfor/star", lambda xs, e: E(S("lfor"), U("x"), xs, E(S("unpack-iterable"), e)), [V, V], C)
     N("dfor/1", lambda xs, k, v: E(S("dfor"), U("x"), xs, k, v), [B, B, B], C)
